@@ -670,6 +670,45 @@ func runC06(c *Ctx) {
 		r.Add(core.Obligation{Rule: "order", Key: "order notify offline before online", Func: core.FuncName(fn), Pos: c.P.Pos(fn.Pos()), Status: st,
 			Basis: "no path from the online sendNotification back to makeOffline", Detail: det})
 	}
+	// every online transition is reported: once Host.Online is set, dirty is set on every path to the return
+	r.Rule("transition-dirty", "an online transition always marks the host for notification", 1)
+	if ot := c.A.Method("", "Session", "onlineTransition"); ot != nil {
+		var on ssa.Instruction
+		core.EachInstr(ot, func(i ssa.Instruction) {
+			if s, ok := i.(*ssa.Store); ok && norm(s.Addr) == "arg0.Online" {
+				if v, isC := constBool(s.Val); isC && v {
+					on = i
+				}
+			}
+		})
+		st := core.Violated
+		det := "Host.Online = true not found in onlineTransition"
+		if on != nil {
+			isDirty := func(j ssa.Instruction) bool {
+				s, ok := j.(*ssa.Store)
+				if !ok || norm(s.Addr) != "arg0.dirty" {
+					return false
+				}
+				v, isC := constBool(s.Val)
+				return isC && v
+			}
+			ok, exit := mustPass(on, isDirty)
+			// the store may also precede Online = true in the same straight-line region
+			before := false
+			core.EachInstr(ot, func(j ssa.Instruction) {
+				if isDirty(j) && core.InstrDominates(j, on) {
+					before = true
+				}
+			})
+			if ok || before {
+				st, det = core.Proved, ""
+			} else {
+				det = "a path from Host.Online = true reaches the return at " + c.P.Pos(core.PosOf(exit)) + " without dirty = true: a host coming back online (same address) produces no notification"
+			}
+		}
+		r.Add(core.Obligation{Rule: "transition-dirty", Key: "transition-dirty onlineTransition", Func: core.FuncName(ot), Pos: c.P.Pos(ot.Pos()), Status: st,
+			Basis: "dirty = true on every path once Online = true", Detail: det})
+	}
 	// dirty = true sites
 	kg := core.NewKeyGen()
 	for _, fn := range lib {
